@@ -1,7 +1,7 @@
 /-
-  KernModel.Spec.Excerpt — C08's specification of a later excerpt (`from_measure ≥ 1`) on the core where the spine paths above the
-  excerpt are never split, joined, added or ended: executable tests on the document (`flatCore`) and the text the excerpt must be
-  (`specExcerpt`).  Theorem `KM.C08R.C08_excerpt_spec` (KernProofs/C08Range.lean).
+  KernModel.Spec.Excerpt — C08's specification of a later excerpt (`from_measure ≥ 1`) on the core the property names: every split
+  above the excerpt is closed again before it starts and every signature stands above it.  Executable tests on the document
+  (`flatCore`) and the text the excerpt must be (`specExcerpt`).  Theorem `KM.C08R.C08_excerpt_spec` (KernProofs/C08Range.lean).
 -/
 import KernModel.Export
 namespace KM.C08R
@@ -13,18 +13,33 @@ def quietNode (n : Node) : Bool := !isHeaderNode n && !isOpNode n
 /-- the coordinates of a line of `n` cells -/
 def rowCoords (s n : Nat) : List Coord := (List.range n).map (fun i => (s, i))
 
-/-- line `s` has `n` cells, none a `**` cell or an operator, and cell `i` hangs from cell `i` of line `s'` -/
-def hangs (d : Doc) (n s s' : Nat) : Bool :=
-  (List.range n).all (fun i => match Doc.nodeAt d.stages (s, i) with
-    | some nd => quietNode nd && nd.parent == some (s', i)
-    | none => false)
+/-- the line holds a spine operator -/
+def rowHasOp (d : Doc) (cs : List Coord) : Bool :=
+  cs.any (fun c => match Doc.nodeAt d.stages c with | some nd => isOpNode nd | none => false)
 
-/-- from line `s` up to the header line `h`: every line hangs, column by column, from an earlier line of the same width -/
-def alignedUp (d : Doc) (n h : Nat) : Nat → Nat → Bool
-  | 0, s => s == h
-  | fuel + 1, s => s == h || (match (Doc.nodeAt d.stages (s, 0)).bind (·.parent) with
-      | some (s', _) => decide (h ≤ s' ∧ s' < s) && hangs d n s s' && alignedUp d n h fuel s'
-      | none => false)
+/-- a cell on the way up that leaves nothing in the excerpt: not a `**` cell; on a line without operators anything else; on a line with
+    operators either an operator that is closed again before the excerpt (or the join that closes it), or a cell that prints a null token -/
+def silentCell (d : Doc) (o : Opts) (fs : Nat) (op : Bool) (c : Coord) : Bool :=
+  match Doc.nodeAt d.stages c with
+  | none => false
+  | some nd => !isHeaderNode nd && nd.parent.isSome &&
+      (if op then
+        (closedOp d fs c nd || (match exportToken d o nd with | .ok s => emptyRow [s] | .error _ => false))
+       else true)
+
+def silentRow (d : Doc) (o : Opts) (fs : Nat) (cs : List Coord) : Bool := cs.all (silentCell d o fs (rowHasOp d cs))
+
+/-- the cells the cells of a line hang from -/
+def parentsOf (d : Doc) (cs : List Coord) : List Coord := cs.filterMap (fun c => (Doc.nodeAt d.stages c).bind (·.parent))
+
+/-- from the first line of the excerpt up to the line `h` of the `**` cells, following the parent links of its cells: every line on the
+    way is silent, and the walk arrives at all `n` `**` cells at once -/
+def walkUp (d : Doc) (o : Opts) (fs n h : Nat) : Nat → List Coord → Bool
+  | 0, cs => cs == rowCoords h n
+  | k + 1, cs => cs == rowCoords h n ||
+      (match cs with
+       | [] => false
+       | c0 :: _ => decide (h < c0.1) && silentRow d o fs cs && walkUp d o fs n h k (parentsOf d cs))
 
 /-- what the `**` cells hang from (global comments, then the root): nothing there is a `**` cell or an operator -/
 def quietChain (d : Doc) : Nat → Coord → Bool
@@ -66,12 +81,12 @@ def sigColumnAll (d : Doc) (o : Opts) (nd : Node) : Except Err (List Str) :=
 def sigsSettled (d : Doc) (fs : Nat) : Bool :=
   (d.stages[fs]?.getD []).all (fun nd => nd.sigs.all (fun kc => noSigFrom d kc.1 fs))
 
-/-- the core on which the theorem speaks, as one executable test: `n` spine paths, `**` cells on line `h` hanging from `c0`;
-    from line `fs` up to line `h` no spine path is split, joined, added or ended; every signature named in the tables of line `fs`
-    stays undeclared from there on -/
+/-- the core on which the theorem speaks, as one executable test: `n` spine paths on the first line `fs` of the excerpt, `**` cells on
+    line `h` hanging from `c0`; on the way up from line `fs` to line `h` every operator is a split that is closed again before line `fs`
+    or the join that closes it; every signature named in the tables of line `fs` stays undeclared from there on -/
 def flatCore (d : Doc) (o : Opts) (fs n h : Nat) (c0 : Coord) : Bool :=
   decide (0 < n) && decide (0 < h) && decide (fs < d.stages.length) && ((d.stages[fs]?.getD []).length == n) &&
-  alignedUp d n h d.stages.length fs && headerLine d o n h c0 && quietChain d d.stages.length c0 &&
+  walkUp d o fs n h d.stages.length (rowCoords fs n) && headerLine d o n h c0 && quietChain d d.stages.length c0 &&
   sigsSettled d fs && parentsEarlier d
 
 /-- the parameters of `flatCore` read off the document -/
@@ -91,19 +106,19 @@ def sigRowsAll (d : Doc) (o : Opts) (fs : Nat) : Except Err (List (List Str)) :=
   sigTranspose cols
 
 /-- what a later excerpt must be on the core: the header line, the signatures in force on every spine path, the lines of the
-    measures as the full export prints them, the synthetic terminator; `none` outside the core -/
-def specExcerpt (d : Doc) (o : Opts) : Option (Except Err Str) :=
+    measures as the full export prints them, the synthetic terminator; `none` outside the core (or when a cell cannot be printed) -/
+def specExcerpt (d : Doc) (o : Opts) : Option Str :=
   if !hasFrom o then none else
   match validate d o, startStageOf d o with
   | .ok (), .ok fs =>
     if !flatCoreOf d o fs then none else
     let p := coreParams d fs
-    match (nodesOf d p.2.1 p.1).mapM (exportToken d o), sigRowsAll d o fs with
-    | .ok H, .ok sig =>
+    match (nodesOf d p.2.1 p.1).mapM (exportToken d o), sigRowsAll d o fs, bodyRows d o fs (toStageOf d o) with
+    | .ok H, .ok sig, .ok body =>
+      if body.isEmpty then none else
       let pre := [H.filter (fun s => !s.isEmpty)] ++ sig
-      some ((bodyRows d o fs (toStageOf d o)).map (fun body =>
-        renderRows (pre ++ body.map (·.2) ++ terminatorFor o (pre ++ body.map (·.2)))))
-    | _, _ => none
+      some (renderRows (pre ++ body.map (·.2) ++ terminatorFor o (pre ++ body.map (·.2))))
+    | _, _, _ => none
   | _, _ => none
 
 end KM.C08R
